@@ -96,6 +96,9 @@ class Interp:
         # opt-in: `x == LITERAL` through a compiler-derived PartialEq, LITERAL a closed constant tree, is decided by
         # refining x level by level (structural equality is what the derive generates)
         self.model_literal_eq = False
+        # optional hook (interp, state, future term) -> value or None: the output of awaiting an opaque future
+        # (used to give a sub-expression's evaluation a concrete, tagged result)
+        self.await_hook = None
         self.max_depth = max_depth
         self.loop_bound = loop_bound
         self.max_paths = max_paths
@@ -876,6 +879,10 @@ class Interp:
                 st.frames[fid][2] = ("sym", "task_context")
                 res = self.run_body(b, st, fid, depth + 1, stack)
                 return [(s2, self.mk(self.POLL, "Ready", rv)) for s2, rv in res]
+            if self.await_hook is not None:
+                hv = self.await_hook(self, st, self.resolve(st, fut))
+                if hv is not None:
+                    return [(st, self.mk(self.POLL, "Ready", hv))]
             return [(st, self.mk(self.POLL, "Ready", ("await", self.resolve(st, fut))))]
         if tr == "std::ops::Try" and nm == "branch":
             v = args[0]
